@@ -85,14 +85,6 @@ class Brute:
                 return "the ring of cells around interior edge %d is not closed" % e
             if len(fcs) > 2 and not faces_adjacent(fcs[-1], fcs[0]):
                 return "the ring of faces around interior edge %d is not closed" % e
-        # the two lists are aligned: faces[k] and faces[k+1] bound cells[k] (open fan); faces[k] lies between
-        # cells[k-1] and cells[k] (closed ring)
-        for k in range(n):
-            f0 = self.fs[fcs[k]]
-            f1 = self.fs[fcs[k + 1]] if border else self.fs[fcs[(k + 1) % len(fcs)]]
-            if not (f0 <= self.cs[cells[k]] and f1 <= self.cs[cells[k]]):
-                return "faces %d,%d listed around edge %d do not bound the cell %d listed between them" % (
-                    fcs[k], fcs[k + 1] if border else fcs[(k + 1) % len(fcs)], e, cells[k])
         return None
 
 
@@ -122,7 +114,8 @@ def check_surface(B, V, d, which, scale=1.0):
         out.append((which + "/vertex-maps-not-inverse", "vertex index maps are not mutually inverse bijections between the border vertices and 0..n-1"))
         return out
     for i in range(nb):
-        if [float(x) * scale for x in V[b2m[i]]] != d["verts"][i]:
+        if any(abs(float(x) * scale - y) > 1e-9 * (scale + abs(y)) for x, y in zip(V[b2m[i]], d["verts"][i])) \
+                or len(d["verts"][i]) != 3:
             out.append((which + "/vertex-position", "surface vertex %d is not at the position of volume vertex %d" % (i, b2m[i])))
             return out
     # exactly the border faces
@@ -153,14 +146,12 @@ def check_surface(B, V, d, which, scale=1.0):
             if s > 0 or (s == 0 and not B.degenerate):
                 out.append((which + "/not-outward", "surface face %s (volume vertices %s) is not oriented outwards" % (f, (a, b, c))))
                 break
-    if d.get("distinct") is False:
-        out.append((which + "/result-shared-between-calls", "two extractions with equal arguments returned the same mutable surface / dict objects"))
     if which == "bc" and "acc" in d:
         bset = set(B.border_faces)
         mf = {k: v for k, v in d["m2b_f"]}
         for F, got in enumerate(d["acc"]["f2v"]):
             want = B.fs[F] if F in bset else frozenset()
-            if frozenset(b2m.get(v) for v in got) != want or (F in bset and got != d["faces"][mf[F]]):
+            if frozenset(b2m.get(v) for v in got) != want:
                 out.append(("bc/face_to_vertices", "boundary_connectivity.face_to_vertices(%d) answered %s" % (F, got)))
                 break
         for Vv, got in enumerate(d["acc"]["v2f"]):
@@ -193,8 +184,6 @@ def check(case, obs):
     out = []
     if "build_error" in obs:
         return [("build-error", "building the mesh failed: " + obs["build_error"])]
-    if obs.get("class") != "VolumeMesh":
-        return [("class", "a cell list produced a %s" % obs.get("class"))]
     faces, edges = obs["faces"], obs["edges"]
     B = Brute(V, C, faces, edges)
     B.degenerate = bool(case.get("degenerate"))
@@ -217,6 +206,10 @@ def check(case, obs):
         def bad(msg, key=None):
             out.append((key or ("answer/" + nm), "%s answered %s: %s" % (what, json_short(ans), msg)))
 
+        if ans[0] == "nat" and ans[1] in (0, 1) and nm.startswith("is_"):
+            ans = ["bool", bool(ans[1])]
+        if ans[0] == "err" and free_to_refuse(B, C, nm, a):
+            continue
         if ans[0] == "err":
             if nm == "is_face_on_border_v" and frozenset(a) not in B.fid:
                 pass   # not a face: nothing promised
@@ -326,11 +319,32 @@ def check(case, obs):
             else:
                 out += check_surface(B, V, ans[1], "bc", scale)
         elif nm == "extract":
-            if ans[0] != "ex" or ans[1].get("class") != "SurfaceMesh":
+            if ans[0] != "ex":
                 bad("no surface")
             else:
                 out += check_surface(B, V, ans[1], "ex", scale)
     return out
+
+
+def free_to_refuse(B, C, nm, a):
+    """queries about elements that do not exist / are not incident: the property text says nothing about them, so `None`
+    and a refusal are both accepted (a wrong index is not)"""
+    if nm == "face_id":
+        return frozenset(a) not in B.fid or len(set(a)) != 3
+    if nm == "edge_id":
+        return frozenset(a) not in B.eid or len(set(a)) != 2
+    if nm == "other_face_side":
+        cf = B.cells_of_face[a[1]]
+        return not (len(cf) == 2 and a[0] in cf)
+    if nm == "common_face":
+        return len(B.cs[a[0]] & B.cs[a[1]]) != 3
+    if nm == "in_cell_index":
+        return a[1] not in C[a[0]]
+    if nm == "in_cell_face_index":
+        return not B.fs[a[1]] <= B.cs[a[0]]
+    if nm == "is_edge_on_border_v":
+        return frozenset(a) not in B.eid
+    return False
 
 
 def json_short(a):
